@@ -58,9 +58,9 @@ CLAIMED = {
         technique="Coq proof (refinement model=spec incl. floor arithmetic and window folds) + correspondence",
     ),
     "C13": dict(
-        text="Coq theorems: density_inversion_test model = per-point specification for ALL profiles, missing placements and threshold options (no hypothesis); both points of an inverted pair flagged; change taken in the direction of increasing depth, zero at constant depth; MISSING for an incomplete record and the next one; reversal symmetry for complete profiles (hypothesis shown necessary); pressure_increasing_test characterised for every input with the sign of the mean step proved equal to sign(last-first) by telescoping (a zero mean counts as ascending, as stated in the theorem). Tied by correspondence on exhaustive small profiles.",
+        text="Coq theorems: density_inversion_test model = per-point specification for ALL profiles, missing placements and threshold options (no hypothesis); both points of an inverted pair flagged; change taken in the direction of increasing depth, zero at constant depth; MISSING for an incomplete record and the next one; reversal symmetry for complete profiles (hypothesis shown necessary); pressure_increasing_test characterised for every input with the sign of the mean step proved equal to sign(last-first) by telescoping (a zero mean counts as ascending, as stated in the theorem). Tied by correspondence on exhaustive small profiles. Translator tie, whole function: the array program (delta) and the flag skeleton of density_inversion_test are regenerated from the source on every run and proved equal to the model (C13_source_program).",
         design_ref="DESIGN.md §8 C13",
-        technique="Coq proof (refinement, reversal symmetry, telescoping sum) + correspondence",
+        technique="Coq proof + source translator (array program and flag skeleton = model; refinement, reversal symmetry, telescoping sum) + correspondence",
     ),
     "C19": dict(
         text="Coq theorems: cf_safe_name output uses only letters/digits/underscore and never starts with a digit (classes parsed from the regex literals re-read from the source); column naming; the code's include/exclude filter equals the property's rule; for all well-formed runs with pairwise distinct column names PandasStore.save equals the frame the property describes (rows, result/axis/data columns, all write_data/write_axes/include/exclude); compute_aggregate appends the C04 roll-up. Without distinct names the statement is refuted in Coq (known finding F14b: colliding names silently drop a result). Tied by correspondence on stores built from CollectedResults and from real PandasStream runs. Partial: regex engine and DataFrame assembly modelled.",
@@ -73,12 +73,12 @@ CLAIMED = {
         technique="Coq proof (compile/evaluate correctness for every prior stack; parser round-trip) + history correspondence",
     ),
     "C10": dict(
-        text="Coq theorems (all lengths, all strictly increasing whole-second axes, all missing patterns, thresholds >= 0): the operational models of rate_of_change_test and speed_test equal the per-point specifications (later point of a pair flagged from |dx| / elapsed whole seconds; first point GOOD resp. UNKNOWN; equality does not flag; length mismatch rejected); speed_test for EVERY geodesic function (geographiclib is an oracle). Tied by correspondence on irregular axes, exact-on-threshold rates and asymmetric tracks with distances computed by geographiclib directly. Partial: geographiclib and numpy timedelta casts are modelled, not verified.",
+        text="Coq theorems (all lengths, all strictly increasing whole-second axes, all missing patterns, thresholds >= 0): the operational models of rate_of_change_test and speed_test equal the per-point specifications (later point of a pair flagged from |dx| / elapsed whole seconds; first point GOOD resp. UNKNOWN; equality does not flag; length mismatch rejected); speed_test for EVERY geodesic function (geographiclib is an oracle). Tied by correspondence on irregular axes, exact-on-threshold rates and asymmetric tracks with distances computed by geographiclib directly. Partial: geographiclib and numpy timedelta casts are modelled, not verified. Translator tie, whole function: array programs (roc, speed) and flag skeletons regenerated from the source on every run and proved equal to the models (C10_source_program, C10_source_program_speed).",
         design_ref="DESIGN.md §8 C10",
-        technique="Coq proof (refinement model=spec for any geodesic oracle) + model/implementation correspondence check",
+        technique="Coq proof + source translator (array program and flag skeleton = model; refinement model=spec for any geodesic oracle) + model/implementation correspondence check",
     ),
     "C14": dict(
-        text="Coq theorems for every geodesic function, track, missing pattern, box and range_max >= 0: the operational model of location_test equals the decision list FAIL (one coordinate missing or strictly outside the box; edges inside) > SUSPECT (hop distance from the previous full position exceeds range_max) > GOOD, MISSING iff both coordinates missing; bbox arity / shape mismatch rejected; default box read from the source is the whole globe. Tied by correspondence on edge/inside/outside positions, antimeridian longitudes, independent missing patterns and hop-exact range_max values. Partial: geographiclib is an oracle.",
+        text="Coq theorems for every geodesic function, track, missing pattern, box and range_max >= 0: the operational model of location_test equals the decision list FAIL (one coordinate missing or strictly outside the box; edges inside) > SUSPECT (hop distance from the previous full position exceeds range_max) > GOOD, MISSING iff both coordinates missing; bbox arity / shape mismatch rejected; default box read from the source is the whole globe. Tied by correspondence on edge/inside/outside positions, antimeridian longitudes, independent missing patterns and hop-exact range_max values. Partial: geographiclib is an oracle. Translator tie: the flag skeleton of location_test regenerated from the source equals the model (C14_source_skeleton); multi-dimensional arrays of different shapes rejected (shape_guard).",
         design_ref="DESIGN.md §8 C14",
         technique="Coq proof (refinement model=spec for any geodesic oracle, <-> characterisations) + correspondence",
     ),
@@ -98,15 +98,15 @@ CLAIMED = {
         technique="Coq proof (fold invariant over the operation sequence; last-writer-wins refinement) + correspondence on generated histories",
     ),
     "C09": dict(
-        text="Coq theorems (all lengths, all missing placements, both methods, all threshold combinations): the operational model of spike_test equals the per-point specification (end points UNKNOWN, interior decided from the two neighbours by the average / differential magnitude, FAIL over SUSPECT over GOOD with strict comparisons, MISSING when a needed value is missing); bad method rejected. Tied by correspondence on all series of length<=3 over a 6-symbol alphabet x methods x 16 threshold pairs plus random longer series.",
+        text="Coq theorems (all lengths, all missing placements, both methods, all threshold combinations): the operational model of spike_test equals the per-point specification (end points UNKNOWN, interior decided from the two neighbours by the average / differential magnitude, FAIL over SUSPECT over GOOD with strict comparisons, MISSING when a needed value is missing); bad method rejected. Tied by correspondence on all series of length<=3 over a 6-symbol alphabet x methods x 16 threshold pairs plus random longer series. Translator tie, whole function: the array program (ref / diff of both methods) and the flag skeleton are regenerated from the source on every run and proved, for all inputs, to compute the model's flags (C09_source_program).",
         design_ref="DESIGN.md §8 C09",
-        technique="Coq proof (refinement model=spec, decision-list characterisation) + model/implementation correspondence check",
+        technique="Coq proof + source translator (array program and flag skeleton = model; refinement model=spec, decision-list characterisation) + model/implementation correspondence check",
     ),
     "C03": dict(
         text="Coq theorems (all lengths, all missing placements, all spans): the operational models of gross_range_test and "
              "valid_range_test equal the property's pointwise decision list; FAIL/SUSPECT/GOOD characterised by strict "
              "inequalities; span order irrelevant; non-contained suspect span rejected. Tied to /repo on every run by "
-             "running implementation and model (vm_compute) on the same boundary-value cases.",
+             "running implementation and model (vm_compute) on the same boundary-value cases. Translator tie: the flag skeletons of gross_range_test and valid_range_test regenerated from the source equal the models (C03_source_skeleton, C03_source_skeleton_valid).",
         design_ref="DESIGN.md §8 C03",
         technique="Coq proof (refinement model=spec + characterisation lemmas) + model/implementation correspondence check",
     ),
